@@ -74,16 +74,16 @@ type tsEvent struct {
 }
 
 type tsSummary struct {
-	MutNoStore map[string]string // object key (P<i>, root(P<i>)) -> witness
-	Rekey      map[string]bool   // the open obligation stems from a re-keyed object: only a later store closes it
-	Sto        map[string]bool   // must-store on every success path
-	Rem        map[string]bool   // must-remove on every success path
-	Mut        map[string]bool   // may mutate
-	FreshRes   map[int]string    // result index -> witness: returns a new slab that it did not store
-	RetAlias   map[int]string    // result index -> object key it may alias (P<i>)
-	MayEffect  bool              // may mutate a non-fresh tracked object, store, remove or allocate an id
-	MayReject  bool              // may return a request-rejection error
-	EffBeforeReject string       // witness: an effect can precede a rejection
+	MutNoStore      map[string]string // object key (P<i>, root(P<i>)) -> witness
+	Rekey           map[string]bool   // the open obligation stems from a re-keyed object: only a later store closes it
+	Sto             map[string]bool   // must-store on every success path
+	Rem             map[string]bool   // must-remove on every success path
+	Mut             map[string]bool   // may mutate
+	FreshRes        map[int]string    // result index -> witness: returns a new slab that it did not store
+	RetAlias        map[int]string    // result index -> object key it may alias (P<i>)
+	MayEffect       bool              // may mutate a non-fresh tracked object, store, remove or allocate an id
+	MayReject       bool              // may return a request-rejection error
+	EffBeforeReject string            // witness: an effect can precede a rejection
 }
 
 func newSummary() *tsSummary {
@@ -178,11 +178,11 @@ type tsFunc struct {
 	memo map[ssa.Value][]string
 	busy map[ssa.Value]bool
 	// root alias: objects assigned to handle.root inside this function are the logical root
-	rootAlias map[string]string // unused (kept for construction compatibility)
-	rootStores []*ssa.Store     // stores to <handle>.root in this function
-	exitRoots  map[string]string // object key that is a handle's root when the function returns -> root(<handle>) key
-	takeover   map[string]string // new root object -> old root key whose register it takes over
-	idOf      map[string][]ssa.Value // object -> id values it was retrieved by
+	rootAlias  map[string]string      // unused (kept for construction compatibility)
+	rootStores []*ssa.Store           // stores to <handle>.root in this function
+	exitRoots  map[string]string      // object key that is a handle's root when the function returns -> root(<handle>) key
+	takeover   map[string]string      // new root object -> old root key whose register it takes over
+	idOf       map[string][]ssa.Value // object -> id values it was retrieved by
 }
 
 func (t *tsFunc) paramIndex(v ssa.Value) int {
